@@ -39,7 +39,7 @@ def build_views(ch):
     layout = ch.pick('pt_load_layout', ['one', 'two_bias', 'two_bias_ptrs_in_second', 'three_with_gap', 'adjacent_in_memory'])
     hash_kind = ch.pick('hash', ['gnu', 'sysv', 'both', 'neither'])
     nsym = ch.pick('symbol_count', [4, 1, 40])
-    relkind = ch.pick('reloc_tables', ['rela+jmprel', 'rel+jmprel_rel', 'relr', 'none', 'all'])
+    relkind = ch.pick('reloc_tables', ['rela+jmprel', 'rel+jmprel_rel', 'relr', 'none', 'all', 'rela+jmprel_rel', 'rel+jmprel_rela'])      # the last two mix flavours: DT_PLTREL alone decides JMPREL
     nrel = ch.pick('reloc_entries', [3, 0, 1])
     gnu_symoff = ch.pick('gnu.symoffset', [1, 'count', 2])
     gnu_nb = ch.pick('gnu.nbuckets', [2, 1, 5])
@@ -64,11 +64,11 @@ def build_views(ch):
     rel = [(0x3100 + 8 * i, f.r_info(i % max(nsym, 1), 7 + i)) for i in range(nrel)]
     plt = [(0x3200 + 8 * i, f.r_info((i + 1) % max(nsym, 1), 7), i) for i in range(nrel)]
     relr_words = [0x4000, 0b1011, 0x5000][:nrel]
-    want_rela = relkind in ('rela+jmprel', 'all')
-    want_rel = relkind in ('rel+jmprel_rel', 'all')
+    want_rela = relkind in ('rela+jmprel', 'all', 'rela+jmprel_rel')
+    want_rel = relkind in ('rel+jmprel_rel', 'all', 'rel+jmprel_rela')
     want_relr = relkind in ('relr', 'all')
-    want_plt = relkind in ('rela+jmprel', 'rel+jmprel_rel', 'all')
-    plt_is_rela = relkind != 'rel+jmprel_rel'
+    want_plt = relkind not in ('relr', 'none')
+    plt_is_rela = relkind in ('rela+jmprel', 'all', 'rel+jmprel_rela')
     relabytes = b''.join(f.rela(*r) for r in rela)
     relbytes = b''.join(f.rel(*r) for r in rel)
     pltbytes = b''.join((f.rela(*r) if plt_is_rela else f.rel(r[0], r[1])) for r in plt)
@@ -145,6 +145,8 @@ def build_views(ch):
             tag(0x12345, f.mask)
             tag(0x6fffff00, 1)
             tag(0x60000123, 2)
+            tag(-1, 7)                          # d_tag is a SIGNED word (Elf32_Sword / Elf64_Sxword)
+            tag(-(1 << (cls - 1)), 3)
         if extras == 'duplicates':
             tag('SONAME', s_off['libc.so.6'])
             tag('STRSZ', 1)
